@@ -137,3 +137,4 @@ def main(c):
     ]
     import drvlib
     drvlib.inbound_loops(c)
+    drvlib.llgr_marking(c)
